@@ -4,6 +4,8 @@
   seed.py validate <dir-with-out>            confirm in a scratch worktree: applies, builds, suite passes,
                                              demo fails with the change and passes without it
   seed.py run <patch.diff> <PROP> [tier]     apply to /repo, run ./check, undo straight afterwards
+  seed.py sweep [name...]                    apply every kept change in turn, run its property's quick check, undo;
+                                             results in /verif/seeded/RESULTS.json (evidence goes to .build/)
   seed.py keep <dir-with-out> <name>         copy patch/demo/meta to /verif/seeded/<name>/
 """
 import json
@@ -98,12 +100,61 @@ def run(patch, prop, tier="quick"):
         print("patch does not apply:\n" + o)
         return 2
     try:
-        p = subprocess.run([os.path.join(VERIF, "check"), prop, tier] + sys.argv[5:], cwd=VERIF)
+        env = dict(os.environ, VERIF_EVIDENCE_DIR=os.path.join(VERIF, ".build", "evidence-seeded"))
+        p = subprocess.run([os.path.join(VERIF, "check"), prop, tier] + sys.argv[5:], cwd=VERIF, env=env)
         rc = p.returncode
     finally:
         sh("git -C /repo checkout -- . && git -C /repo clean -fdq -- pfcpiface conf cmd pkg internal")
     print("seed.py: check exit", rc)
     return rc
+
+
+def sweep(names):
+    """Applies every kept change in turn and runs its property's quick check; writes seeded/RESULTS.json."""
+    import re
+    root = os.path.join(VERIF, "seeded")
+    path = os.path.join(root, "RESULTS.json")
+    results = json.load(open(path)) if os.path.exists(path) else {}
+    rc, o = sh("git -C /repo status --porcelain")
+    if o.strip():
+        print("refusing: /repo working tree is not clean:\n" + o)
+        return 2
+    rc, head = sh("git -C /repo rev-parse --short HEAD")
+    for name in sorted(os.listdir(root)):
+        d = os.path.join(root, name)
+        patch = os.path.join(d, "patch.diff")
+        if not os.path.isfile(patch) or (names and name not in names):
+            continue
+        meta = json.load(open(os.path.join(d, "meta.json")))
+        prop = meta["property"]
+        rc, o = sh("git -C /repo apply --check %s" % patch)
+        if rc != 0:
+            results[name] = {"property": prop, "repo_head": head.strip(), "result": "does-not-apply",
+                             "detail": "the patch no longer applies to the repaired tree (see meta.json for its disposition)"}
+            print(name, "does not apply")
+            continue
+        sh("git -C /repo apply %s" % patch)
+        try:
+            env = dict(os.environ, VERIF_EVIDENCE_DIR=os.path.join(VERIF, ".build", "evidence-seeded"))
+            import time
+            t0 = time.time()
+            p = subprocess.run([os.path.join(VERIF, "check"), prop, "quick"], cwd=VERIF, env=env,
+                               stdout=subprocess.PIPE, stderr=subprocess.STDOUT, text=True)
+            out = p.stdout
+        finally:
+            sh("git -C /repo checkout -- . && git -C /repo clean -fdq -- pfcpiface conf cmd pkg internal")
+        msg = ""
+        m = re.search(r"\[check\] failure: (.*?)(?:\n\s+To reproduce|\n\[check\]|\nVIOLATION|$)", out, re.S)
+        if m:
+            msg = " ".join(m.group(1).split())[:400]
+        results[name] = {"property": prop, "repo_head": head.strip(), "exit": p.returncode,
+                         "result": {0: "MISSED", 1: "caught"}.get(p.returncode, "inconclusive"),
+                         "wall_s": round(time.time() - t0, 1), "first_failure": msg}
+        print(name, results[name]["result"], results[name]["wall_s"], msg[:160], flush=True)
+        json.dump(results, open(path, "w"), indent=1, sort_keys=True)
+    json.dump(results, open(path, "w"), indent=1, sort_keys=True)
+    shutil.rmtree(os.path.join(VERIF, "replays"), ignore_errors=True)
+    return 0
 
 
 def keep(d, name):
@@ -122,6 +173,8 @@ if __name__ == "__main__":
         sys.exit(validate(a[2]))
     if len(a) >= 4 and a[1] == "run":
         sys.exit(run(a[2], a[3], a[4] if len(a) > 4 else "quick"))
+    if len(a) >= 2 and a[1] == "sweep":
+        sys.exit(sweep(a[2:]))
     if len(a) >= 4 and a[1] == "keep":
         sys.exit(keep(a[2], a[3]))
     print(__doc__)
